@@ -433,6 +433,12 @@ func (e *Executor) OnTargetComplete(ctx context.Context, target *model.Target, u
 	target.OutputsLoaded = true
 	target.OutputHash = targetResult.OutputHash
 
+	if !e.enableCache {
+		// A disabled cache is neither read nor written: the result of a cached build
+		// stored under this change hash must survive a build with --enable-cache=false
+		return nil
+	}
+
 	cacheStart := time.Now()
 	defer func() {
 		target.CacheTime += time.Since(cacheStart)
@@ -471,6 +477,12 @@ func (e *Executor) LoadDependencyOutputs(
 				return executionErr
 			}
 			return nil
+		}
+
+		if localDep.OutputsLoaded {
+			// Executed or restored earlier in this invocation: its outputs are in place and
+			// nothing is needed from the cache (which holds no result when it is disabled)
+			continue
 		}
 
 		targetResult, err := e.targetCache.Load(ctx, localDep.ChangeHash)
